@@ -72,6 +72,25 @@ def arcsIter (d : AdjMatrix) : List (Nat × Nat) := drain d (iterFuel d) iterIni
 /-- `size()`: `blocks.iter().map(|b| b.count_ones() as usize).sum()`. -/
 def sizePop (d : AdjMatrix) : Nat := (d.blocks.map popcount).sum
 
+/-! ### a linear-time evaluation of the same listing (driver, large matrices)
+
+`drain` indexes `blocks` (a `List`) once per iteration, which is quadratic in the number of
+blocks.  `arcsFold` walks the block list once, skips zero words and decodes the set bits of
+the others; `Proof/ReprMXIter.lean` (`arcsFold_eq`) proves `arcsFold d = d.arcs = arcsIter d`.
+The driver uses it above 1 024 blocks (order > 256), i.e. for the stress stream. -/
+
+/-- The set bits of a word, ascending. -/
+def bitsList (x : BitVec 64) : List Nat := (List.range 64).filter (fun k => x.getLsbD k)
+
+def cellsOfBits (base : Nat) (bits : BitVec 64) : List Nat := (bitsList bits).map (fun k => base + k)
+
+/-- The `cell < order²` test and the decoding `(cell / order, cell % order)` of the loop body. -/
+def emit (d : AdjMatrix) (cs : List Nat) : List (Nat × Nat) :=
+  (cs.filter (fun c => decide (c < d.order * d.order))).map (fun c => (c / d.order, c % d.order))
+
+def arcsFold (d : AdjMatrix) : List (Nat × Nat) :=
+  emit d ((d.blocks.zipIdx).flatMap (fun p => if p.1 = 0#64 then [] else cellsOfBits (p.2 * 64) p.1))
+
 end GraafVerif.Repr.AdjMatrix
 
 /-! ## Literal model of `AdjacencyList`'s hand-written `ArcsIterator`
